@@ -33,6 +33,9 @@ pub enum Source {
     /// `n` copies of one small message (reference-encoded on chunk stream 3, maximally compressed),
     /// then `tail`: thousands of complete messages inside one read
     Flood { type_id: u8, msid: u32, payload: Vec<u8>, n: u32, tail: Vec<FOp> },
+    /// `n` messages of `len` patterned bytes each (reference-encoded, 128-byte chunks): streams of
+    /// more than 16 MiB in all, so that ONE read can hold more than any single message may
+    Bulk { type_id: u8, len: u32, n: u32 },
 }
 
 #[derive(Clone, Debug, Serialize, Deserialize)]
@@ -111,6 +114,19 @@ pub fn build_stream(case_source: &Source) -> Vec<u8> {
         },
         Source::Foreign(ops) => encode_foreign(ops).stream,
         Source::Raw(b) => b.clone(),
+        Source::Bulk { type_id, len, n } => {
+            let mut enc = crate::refs::chunk::RefChunkEnc::new();
+            let mut out = Vec::with_capacity((*len as usize + *len as usize / 100 + 32) * *n as usize);
+            for i in 0..*n {
+                let payload: Vec<u8> = (0..*len).map(|j| (i.wrapping_mul(31).wrapping_add(j.wrapping_mul(7)) >> 1) as u8).collect();
+                let msg = Msg { ts: i.wrapping_mul(40), type_id: *type_id, msid: 1, payload };
+                let e = enc.encode(&msg, &crate::refs::chunk::EncOpts { csid: 6, want_fmt: 3, three_byte: false, fmt0_continuation: false });
+                for c in &e.chunks {
+                    out.extend_from_slice(c);
+                }
+            }
+            out
+        }
         Source::Flood { type_id, msid, payload, n, tail } => {
             let mut enc = crate::refs::chunk::RefChunkEnc::new();
             let mut out = Vec::new();
@@ -183,6 +199,7 @@ pub fn eval(case: &Case) -> Verdict {
         Source::Foreign(_) => "source-foreign-encoder",
         Source::Raw(_) => "source-raw-bytes",
         Source::Flood { .. } => "source-flood-of-small-messages",
+        Source::Bulk { .. } => "source-bulk",
     });
     let mut header_cut_differs = false;
     if case.mutations.is_empty() {
@@ -197,6 +214,34 @@ pub fn eval(case: &Case) -> Verdict {
     }
     obs.count("messages-delivered", base_msgs.len() as u64);
     obs.nontrivial = base_msgs.len() >= 2 && header_cut_differs;
+    Verdict::Pass(obs)
+}
+
+/// One read that holds more than 16 MiB of valid stream (more than any single message may hold)
+/// against the same stream in 65535-byte reads and under a generated partition.
+fn bulk_source() -> BoxedStrategy<Source> {
+    (gen::pick(&[9u8, 8, 18, 22]), gen::pick(&[450_000u32, 1_000_000, 65_536, 4_000_000, 16_777_215, 100_000]), gen::pick(&[12u32, 16, 17, 18, 24, 33, 40]))
+        .prop_map(|(type_id, len, mib)| Source::Bulk { type_id, len, n: ((mib << 20) + len - 1) / len + 1 })
+        .boxed()
+}
+
+fn eval_bulk(case: &Case) -> Verdict {
+    let stream = build_stream(&case.source);
+    let (base_msgs, base_err) = lib_decode(&stream, &Partition::Whole);
+    let expected = match case.source { Source::Bulk { n, .. } => n as usize, _ => 0 };
+    vensure!(base_err.is_none() && base_msgs.len() == expected, "one-call delivery of a valid {}-byte stream of {} messages ends with {:?} after {} messages", stream.len(), expected, base_err, base_msgs.len());
+    let every = Partition::Every(65535);
+    for p in [&every, &case.c] {
+        let (msgs, err) = lib_decode(&stream, p);
+        if let Some(d) = first_difference(&msgs, &base_msgs) {
+            vfail!("partition {:?} and one-call delivery disagree on the messages of a {}-byte stream: {}", p, stream.len(), d);
+        }
+        vensure!(err.is_none(), "partition {:?} ends with {:?} but one-call delivery succeeds", p, err);
+    }
+    let mut obs = Obs::new();
+    obs.class(if stream.len() > (16 << 20) + 18 { "one-read-above-16MiB" } else { "one-read-below-16MiB" });
+    obs.count("messages-delivered", base_msgs.len() as u64);
+    obs.nontrivial = stream.len() > (16 << 20) + 18;
     Verdict::Pass(obs)
 }
 
@@ -415,7 +460,7 @@ pub fn spec() -> PropSpec {
     PropSpec {
         id: "C15",
         level: "exploration",
-        rule: "byte streams: library-serialized sequences, RefChunkEnc foreign streams, raw bytes, and mutants of them (byte flips, overwritten bytes from a header-byte pool, 24-bit header fields replaced by boundary values, truncations, duplicated / deleted ranges); sub-check 'deserializer-kilobyte-chunks' uses chunk sizes 4095..65536 and messages up to 70000 bytes; sub-check 'deserializer-every-two-piece-cut' tries EVERY cut position of short valid streams; sub-checks '…-flood' deliver 1000..6000 copies of one small message (acknowledgement, ping, window size, one audio byte, empty video, unknown type, abort) plus a short tail; each stream is run under four partitions (one call, byte by byte, two generated ones, optionally with empty polls) through fresh deserializers (and, in the session sub-checks, fresh sessions with the same preparatory history); message sequences, error position and error variant must be identical. Non-trivial = >= 2 messages delivered and a cut strictly inside a chunk header in one generated partition; distinct = distinct case",
+        rule: "byte streams: library-serialized sequences, RefChunkEnc foreign streams, raw bytes, and mutants of them (byte flips, overwritten bytes from a header-byte pool, 24-bit header fields replaced by boundary values, truncations, duplicated / deleted ranges); sub-check 'deserializer-kilobyte-chunks' uses chunk sizes 4095..65536 and messages up to 70000 bytes; sub-check 'deserializer-every-two-piece-cut' tries EVERY cut position of short valid streams; sub-check 'deserializer-one-read-above-16MiB' hands 12..40 MiB of valid stream (messages of 64 KiB..16 MiB-1) over in ONE call and compares with 65535-byte reads and a generated partition; sub-checks '…-flood' deliver 1000..6000 copies of one small message (acknowledgement, ping, window size, one audio byte, empty video, unknown type, abort) plus a short tail; each stream is run under four partitions (one call, byte by byte, two generated ones, optionally with empty polls) through fresh deserializers (and, in the session sub-checks, fresh sessions with the same preparatory history); message sequences, error position and error variant must be identical. Non-trivial = >= 2 messages delivered and a cut strictly inside a chunk header in one generated partition; distinct = distinct case",
         assumptions: vec![
             "error position is judged at the granularity the API has: messages returned before the error, and the error variant",
             "sessions: handle_input returns Result<Vec<_>, _>, so results gathered earlier in the failing call are necessarily discarded; asserted: the failing call is the one containing the byte at which byte-by-byte delivery fails, and every earlier call returns exactly the byte-by-byte results of its byte range",
@@ -432,6 +477,7 @@ pub fn spec() -> PropSpec {
             PropCheck::new("sessions", |_| session_case(), 15_000, 500_000, eval_session),
             PropCheck::new("deserializer-flood", |_| (flood_source(), gen::partition_large(), gen::partition()).prop_map(|(source, c, d)| Case { source, mutations: vec![], c, d }).boxed(), 60, 2_000, eval),
             PropCheck::new("sessions-flood", |_| (prop_oneof![(0u8..4).prop_map(Target::Server), (0u8..4).prop_map(Target::Client)], flood_source(), gen::partition_large(), gen::partition()).prop_map(|(target, source, c, d)| SessCase { target, input: Input::Mutated { source, mutations: vec![] }, c, d }).boxed(), 120, 4_000, eval_session),
+            PropCheck::new("deserializer-one-read-above-16MiB", |_| (bulk_source(), gen::partition_large()).prop_map(|(source, c)| Case { source, mutations: vec![], c, d: Partition::Whole }).boxed(), 16, 160, eval_bulk),
             crate::targets::corpus_check(&["split"]),
         ],
     }
